@@ -79,7 +79,13 @@ class PrefixSid(Attribute):
         return cls(sr_attrs=sr_attrs, packed=original)
 
     def json(self, compact: bool | None = None) -> str:
-        content: str = ', '.join(d.json() for d in self.sr_attrs)
+        # one JSON member per TLV type: a peer repeating a TLV must not produce an object with a duplicate key
+        # (RFC 8669 section 3.1: only the first Label-Index TLV is used)
+        members: dict[str, str] = {}
+        for d in self.sr_attrs:
+            fragment: str = d.json()
+            members.setdefault(fragment.split(':', 1)[0], fragment)
+        content: str = ', '.join(members.values())
         return f'{{ {content} }}'
 
     def __str__(self) -> str:
